@@ -1107,9 +1107,19 @@ class Exceptions:
                     continue  # ids are static constants: cannot clash
                 for c in self.implicit.get(ed.dst, []):
                     t = getattr(builtins, c, None)
+                    # an implicit raiser is identified by the class that makes
+                    # the call and the callee, not by the method the call
+                    # happens to sit in (extracting a helper keeps the origin)
+                    owner = fi
+                    while owner.parent is not None:
+                        owner = owner.parent
+                    org = '%s::%s::%s' % (
+                        fi.module.rel, owner.cls.name,
+                        ed.dst.split('.')[-1]) if owner.cls is not None \
+                        else _origin(fi)
                     self._add(out, hstack,
                               self.builtin(t) if t else ExcClass(c),
-                              _origin(fi),
+                              org,
                               ['%s:%d %s calls %s' % (
                                   fi.module.rel, call.lineno, fi.qualname,
                                   ed.dst)], fi)
